@@ -717,6 +717,45 @@ def clap_groups(chk, rule):
         chk.ob(rule, "clap-group-field(%s.%s)/optional" % (adt.split("::")[-1], fld), tys.get(fld) == ty, "", "field type %s" % tys.get(fld), nontrivial=False)
 
 
+def nonempty_shape_supports(chk, rule):
+    """several reviewed rows (`self[0]` in Display for Shape, `dimensions() - 1`, RemovedAxis::new) rest on `every Shape has >= 1 axis` (NE in
+    tables/panic_sites.json).  What NE itself rests on in the two input parsers is checked here: neither can yield an empty axis list."""
+    prog = chk.prog
+    ZERO_OK = ("opt", "many0", "separated_list0", "many0_count", "fold_many0", "many_till", "many_m_n")
+    zero = []
+    lists1 = 0
+    nfn = 0
+    for f in prog.fn_list:
+        if f.derived or "::npy::header::parse::" not in f.path + "::":
+            continue
+        nfn += 1
+        for b, t in f.calls():
+            nm = callee_name(t["callee"])
+            if not nm.startswith("nom::") or "{closure" in nm:
+                continue
+            last = nm.split("::")[-1]
+            args = t["callee"].get("args") or []
+            if last in ("separated_list1", "many1"):
+                lists1 += 1
+            if last in ZERO_OK:
+                # the combinator's output type: opt<I, O, ..> yields Option<O>; the list combinators yield Vec<O>
+                out = args[1] if len(args) > 1 else ""
+                seq = ("Vec<usize>" in out) if last == "opt" else (out in ("usize", "u64") or "Vec<usize>" in out)
+                if seq:
+                    zero.append("%s<%s> at %s" % (last, out, f.loc(b)))
+    chk.ob(rule, "NE/npy-shape-parser/at-least-one-axis", nfn >= 5 and lists1 >= 1 and not zero, "",
+           "the npy header's 'shape' tuple is parsed with a one-or-more list combinator and no optional / zero-or-more combinator yields the axis list "
+           "(one-or-more lists: %d; zero-allowing combinators over the axes: %s)" % (lists1, zero or "none"))
+    h = prog.fn("<sfs_core::spectrum::io::text::Header as core::str::traits::FromStr>::from_str")
+    if h is not None:
+        names = [callee_name(t["callee"]) for g in [h] + prog.closures_of(h.path) for b, t in g.calls()]
+        splits = [n for n in names if n.startswith("core::str::<impl str>::split")]
+        droppers = [n.split("::")[-1] for n in names if n.startswith("core::iter::traits::iterator::Iterator::") and n.split("::")[-1] in ("filter", "filter_map", "skip", "skip_while", "take", "take_while", "flat_map", "flatten", "step_by")]
+        ok = splits == ["core::str::<impl str>::split"] and not droppers
+        chk.ob(rule, "NE/text-header-parser/at-least-one-axis", ok, h.loc(),
+               "the #SHAPE header is cut with str::split (which yields at least one piece) and every piece is kept (splitters %s, dropping adaptors %s)" % ([n.split("::")[-1] for n in splits], droppers or "none"))
+
+
 def precision_bound(chk, rule):
     """the reviewed rows of the three `{:.precision$}` sites rely on the CLI bounding every precision to <= u16::MAX"""
     prog = chk.prog
@@ -770,6 +809,7 @@ def check_C17(chk):
     res, auto = inventory(chk, "C17.d", fns, rows, "reachable from main")
     clap_groups(chk, "C17.e")
     precision_bound(chk, "C17.f")
+    nonempty_shape_supports(chk, "C17.g")
     # stale rows (sites that disappeared) are harmless; count them for the evidence
     live = set(res)
     unreach_rows = [k for k in rows if k not in live]
@@ -784,6 +824,7 @@ def check_C17(chk):
     chk.floor("C17.d", 120)
     chk.floor("C17.e", 4)
     chk.floor("C17.f", 3)
+    chk.floor("C17.g", 2)
     chk.ob("C17.d", "reachability/floor", len(fns) >= 800, "", "%d of %d workspace function bodies are reachable from main in the over-approximate call graph (floor 800)" % (len(fns), len(prog.fn_list)), nontrivial=False)
 
 
